@@ -321,3 +321,81 @@ def c12_r4(ctx):
                detail="d/dweight: %s, d/dlength: %s -- the bound _score(max weight, min length) is not derivably an "
                       "upper bound" % (mw, ml) if not derivable else "d/dweight: %s, d/dlength: %s" % (mw, ml),
                loc=f.loc)
+
+
+POST_CTOR_OK = {
+    # (function, class, attribute): why overwriting the attribute after construction is fine
+    ("fields.merge_schema", "Schema", "_fields"): "starts from an empty Schema(): nothing was derived from the empty table yet",
+    ("fields.merge_schema", "Schema", "_dyn_fields"): "same",
+}
+
+
+def _derived_inputs(prog, cls):
+    """attributes that the constructor assigns and that are then read by a self-method the constructor calls (setup(), add(), ...):
+    state the object derives other state from while it is being built"""
+    init = prog.lookup(cls, "__init__")
+    if init is None:
+        return set()
+    assigned = set()
+    for st in ast.walk(init.node):
+        if isinstance(st, ast.Assign):
+            for t in st.targets:
+                if isinstance(t, ast.Attribute) and isinstance(t.value, ast.Name) and t.value.id == "self":
+                    assigned.add(t.attr)
+    reads = set()
+    seen = set()
+
+    def walk(name):
+        if name in seen:
+            return
+        seen.add(name)
+        g = prog.lookup(cls, name)
+        if g is None:
+            return
+        for x in ast.walk(g.node):
+            if isinstance(x, ast.Attribute) and isinstance(x.ctx, ast.Load) and isinstance(x.value, ast.Name) and x.value.id == "self":
+                reads.add(x.attr)
+        for c in norm.calls_in(g.node):
+            if isinstance(c.func, ast.Attribute) and isinstance(c.func.value, ast.Name) and c.func.value.id == "self":
+                walk(c.func.attr)
+    for c in norm.calls_in(init.node):
+        if isinstance(c.func, ast.Attribute) and isinstance(c.func.value, ast.Name) and c.func.value.id == "self":
+            walk(c.func.attr)
+    return assigned & reads
+
+
+@rule("C12", "R5", "K9", "what an object derived state from while being constructed is not overwritten from outside afterwards",
+      min_instances=1, also=("C09", "C05"),
+      clause="If a class's constructor assigns self.X and then calls a method of its own that reads self.X (a scorer's setup() computing its "
+             "maximum quality from B and K1, ...), no code that has just constructed such an object assigns obj.X: the derived value "
+             "(max_quality) would describe another formula than the one score() then uses.  Parameters go through the constructor.")
+def c12_r5(ctx):
+    prog = ctx.prog
+    cache = {}
+    n = 0
+    for f in prog.functions.values():
+        if f.module.name.startswith(("whoosh.lang", "whoosh.support")):
+            continue
+        stores = [(st, t) for st in ast.walk(f.node) if isinstance(st, (ast.Assign, ast.AugAssign))
+                  for t in (st.targets if isinstance(st, ast.Assign) else [st.target])
+                  if isinstance(t, ast.Attribute) and isinstance(t.value, ast.Name) and t.value.id not in ("self", "cls")]
+        if not stores:
+            continue
+        an = norm.assigned_names(f.node)
+        for st, t in stores:
+            for val in [x for x in an.get(t.value.id, []) if x is not None]:
+                if not isinstance(val, ast.Call) or not isinstance(val.func, (ast.Name, ast.Attribute)):
+                    continue
+                r = prog.resolve_in_func(f, val.func)
+                if not r or r[0] != "class":
+                    continue
+                k = r[1]
+                if k.qualname not in cache:
+                    cache[k.qualname] = _derived_inputs(prog, k)
+                n += 1
+                if t.attr in cache[k.qualname] and (f.short, k.name, t.attr) not in POST_CTOR_OK:
+                    ctx.saw(f)
+                    ctx.ob(f, False, "`%s` does not overwrite what %s's constructor already derived other state from" % (norm.stmt_text(st)[:60], k.name),
+                           detail="%s.__init__ assigns self.%s and then calls a method that reads it; assigning it afterwards leaves the "
+                                  "derived state computed from the old value" % (k.name, t.attr), loc=ctx.nodeloc(f, st))
+    ctx.ob("whole program", n >= 5, "%d attribute stores on freshly constructed project objects examined" % n)
